@@ -190,7 +190,8 @@ class MeshQuad1(Mesh2D):
                 boundaries[k] = np.array([
                     next(dropwhile(lambda s: (not np.array_equal(f, s[1])),
                                    slots))[0]
-                    for f in self.facets.T[np.sort(self.boundaries[k])]])
+                    for f in self.facets.T[np.sort(self.boundaries[k])]],
+                    dtype=np.int32)
 
         if self._subdomains or self._boundaries:
             mesh = replace(
